@@ -152,9 +152,10 @@ def explore(tier, seed):
     return pool.run_chunks(run_chunk, chunks)
 
 
-def project(name, cfgv, scope):
+def project(name, cfgv, scope, commit=True):
     P = PATTERNS[name]
-    cfg = f'[bumpver]\ncurrent_version = "{cfgv}"\nversion_pattern = "{P["pattern"]}"\ntag_scope = "{scope}"\ncommit = true\ntag = true\npush = false\n'
+    onoff = "commit = true\ntag = true\npush = false" if commit else "commit = false"
+    cfg = f'[bumpver]\ncurrent_version = "{cfgv}"\nversion_pattern = "{P["pattern"]}"\ntag_scope = "{scope}"\n{onoff}\n'
     return {"bumpver.toml": cfg.encode()}
 
 
@@ -168,7 +169,9 @@ def run_state(st, name, pos, scope, ignore, placement, tags, order=None, kind="g
     if order is not None:
         served_all = [served_all[i] for i in order if i < len(served_all)]
     world.clear_dir(".")
-    world.write_tree(project(name, cfgv, cfg_scope or scope))
+    # (half of the command-line-scope runs are projects that do not commit: the scope still decides the start version)
+    commit_on = not (cfg_scope and h64("commit", repr(placement), scope) % 2)
+    world.write_tree(project(name, cfgv, cfg_scope or scope, commit=commit_on))
     world.mark_repo(kind, as_file=bool(cfg_scope) and kind == "git")  # the command-line-scope runs also have `.git` as a FILE (linked work tree)
     want_update = expected_start(name, cfgv, scope, ignore, placement, tags)
     want_show = expected_start(name, cfgv, cfg_scope or scope, ignore, placement, tags)
@@ -176,6 +179,7 @@ def run_state(st, name, pos, scope, ignore, placement, tags, order=None, kind="g
             "order": list(order) if order else None}
     if cfg_scope:
         case["config_scope"] = cfg_scope
+        case["commit"] = commit_on
     flags = ["--no-fetch"] + (["--ignore-vcs-tag"] if ignore else [])
     if fetch_fault:
         # a remote exists, fetching is on and `git fetch` fails (offline): bumpver may give up, but it must not fall back to a start
@@ -238,12 +242,12 @@ def run_state(st, name, pos, scope, ignore, placement, tags, order=None, kind="g
                 st.outcomes["update-refused"] += 1
     want = want_update
     # an explicit --set-version that names an existing tag (on any branch) must be refused
-    if not ignore and order is None and not cfg_scope and not fetch_fault:
+    if order is None and not cfg_scope and not fetch_fault:
         cands = [t for t in served_all if classify_tag(name, t) == "match" and all(bg.greater(t, w) for w in want)][:2]
         for t in cands:
             fake = fakevcs.install(fakevcs.FakeVCS(kind, tags_all=served_all, tags_merged=served_head, status=[]))
             try:
-                o = world.cli("update", "--dry", "--no-fetch", "--set-version", t)
+                o = world.cli("update", "--dry", "--no-fetch", *(["--ignore-vcs-tag"] if ignore else []), "--set-version", t)
             finally:
                 fakevcs.uninstall()
             st.evaluations += 1
@@ -251,7 +255,7 @@ def run_state(st, name, pos, scope, ignore, placement, tags, order=None, kind="g
             results.append(o)
             if o.exit == 0:
                 st.outcomes["violation"] += 1
-                st.violation(f"C09:set-version-equal-to-existing-tag-accepted:{name}:{scope}", dict(case, cmd="update --set-version " + t),
+                st.violation(f"C09:set-version-equal-to-existing-tag-accepted:{name}:{scope}" + (":ignore" if ignore else ""), dict(case, cmd="update --set-version " + t),
                              {"announced": o.new_version, "tag": t, "where": dict(zip(tags, placement)).get(t)})
             else:
                 st.validated += 1
